@@ -288,3 +288,47 @@ PROPS = {
 
 NOT_CLAIMED = {}
 HOOK_COMMITS = ['d76eef1', 'eb1fdbf']
+
+
+# ----------------------------------------------------------------------------- structural obligations (tie 1 for hand-written models)
+def _add(prop, module, ns, thms, frags):
+    R = PROPS[prop]
+    if module not in R['modules']:
+        R['modules'].append(module)
+    R['theorems'] += [f'{ns}.{t}' for t in thms if f'{ns}.{t}' not in R['theorems']]
+    R['fragments'] = list(R.get('fragments', [])) + [f for f in frags if f not in R.get('fragments', [])]
+
+
+_O = 'DeeprobModel.Oblig.'
+_N = 'Deeprob.Oblig.'
+_VAL = ['isLabeled_as_coded', 'isSmooth_as_coded', 'isDecomposable_as_coded', 'checkSpn_order']
+_VALF = ['validity.is_labeled', 'validity.is_smooth', 'validity.is_decomposable', 'validity.check_spn']
+_add('C03', _O + 'StructValidity', _N + 'StructValidity', _VAL, _VALF)
+_add('C04', _O + 'StructValidity', _N + 'StructValidity', _VAL, _VALF)
+_add('C08', _O + 'StructSched', _N + 'StructSched', ['topdown_stores_shape', 'topdown_mask_updates_locked_or', 'topdown_selectors', 'topdown_leaf_store',
+                                                      'topdown_lock_shared', 'bottomup_writes_own_row'], ['evaluation.eval_top_down', 'evaluation.eval_bottom_up'])
+_add('C16', _O + 'StructRatSpn', _N + 'StructRatSpn', ['splitRegion_as_coded', 'nextRegions_as_coded', 'padOf_as_coded', 'dimOf_as_coded', 'unpad_as_coded', 'unpad_negates'],
+     ['region.random_layers', 'ratspn.pad', 'ratspn.unpad_samples'])
+_add('C09', _O + 'StructRewrite', _N + 'StructRewrite', ['single_as_coded', 'merged_single_as_coded', 'pruneNet_is_repaired', 'pruneStep_uses_collapse'], ['structure.prune'])
+_add('C10', _O + 'StructRewrite', _N + 'StructRewrite', ['margGuard_as_coded', 'pruneNet_is_repaired'], ['structure.marginalize.guards', 'structure.prune'])
+_add('C10', _O + 'StructClt', _N + 'StructClt', ['to_pc_as_coded', 'toPc_row'], ['cltree.to_pc'])
+_add('C06', _O + 'StructTopDown', _N + 'StructTopDown', ['sum_mpe_as_coded', 'mpeBr_is_argmax_of_products', 'bernIdx_as_coded', 'catMode_as_coded', 'catMode_uses_argmax'],
+     ['inference.sum_mpe.selector', 'inference.sum_mpe.score', 'Bernoulli.mpe', 'Categorical.mpe'])
+_add('C06', _O + 'StructClt', _N + 'StructClt', ['message_passing_as_coded', 'upMax_is_up_with_max'], ['cltree.message_passing'])
+_add('C02', _O + 'StructClt', _N + 'StructClt', ['message_passing_as_coded', 'up_missing_is_sum'], ['cltree.message_passing'])
+_add('C07', _O + 'StructClt', _N + 'StructClt', ['sample_as_coded', 'localCond_one', 'message_passing_as_coded'], ['cltree.sample', 'cltree.sample.formula', 'cltree.message_passing'])
+_add('C12', _O + 'StructClt', _N + 'StructClt', ['to_pc_as_coded', 'toPc_row'], ['cltree.to_pc'])
+_add('C11', _O + 'StructCltFit', _N + 'StructCltFit', ['prior_as_coded', 'cell_as_coded', 'joint_offdiag_as_coded', 'joint_diag_as_coded', 'guard_as_coded'],
+     ['statistics.estimate_priors_joints'])
+_add('C15', _O + 'StructFlows', _N + 'StructFlows', ['maskLE_as_coded', 'maskLT_as_coded', 'buildMasks_as_coded', 'hiddenDegreesSeq_as_coded', 'inputDegreesSeq_as_coded',
+                                                      'squeezeSrc_as_coded', 'unsqueezeSrc_as_coded', 'orderingBit_as_coded', 'permIndex_as_coded', 'permWeight_is_indexed'],
+     ['autoregressive.build_masks', 'autoregressive.build_degrees_sequential', 'flows.utils.squeeze_depth2d', 'flows.utils.unsqueeze_depth2d', 'realnvp.build_permutation_matrix'])
+_add('C17', _O + 'StructDgcSpn', _N + 'StructDgcSpn', ['cfgAt_as_coded', 'levels_as_coded', 'keff_as_coded', 'pads_as_coded', 'outSize_as_coded', 'outChannels_as_coded'],
+     ['dgcspn.schedule', 'dgcspn.SpatialProductLayer'])
+
+# net-level prune / marginalize theorems (wave 2)
+PROPS['C09']['modules'] += ['DeeprobModel.Props.C09NetMore', 'DeeprobModel.Props.C09NetKahn']
+PROPS['C09']['theorems'] += ['Deeprob.pruneNet_normal_form', 'Deeprob.pruneNet_valid', 'Deeprob.pruneNet_checkSpn', 'Deeprob.pruneNet_fix',
+                             'Deeprob.pruneNet_idem', 'Deeprob.prunePass_order_indep', 'Deeprob.pruneNetKahn_eval']
+PROPS['C10']['modules'] += ['DeeprobModel.Props.C10NetMore', 'DeeprobModel.Props.C10NetClt']
+PROPS['C10']['theorems'] += ['Deeprob.marginalizeNet_shape', 'Deeprob.marginalizeNet_total', 'Deeprob.marginalizeNetClt_eval']
